@@ -1,5 +1,6 @@
 import PhysisModel.Proofs.MdlGeometry
 import PhysisModel.Proofs.MdlPlaced
+import PhysisModel.Proofs.MdlFill
 import PhysisModel.Proofs.SoftFloat
 /-!
 # C06 — model parsing yields the stored geometry for every vertex layout
@@ -61,6 +62,56 @@ theorem c06_headers_of_encode (m : AbstractModel) (h : WF m = true) :
     parseModelData (fileHeader m) (encModelData m.version (modelData m) ++ sections m) =
         .ok (modelData m, sections m) :=
   ⟨parse_fileHeader m, parse_modelData m h⟩
+
+/-! ### bytes of a declaration block that carry no information
+
+`encDecl` zeroes the padding of every element, the fields of the end-marker slot and every slot
+behind it, as the library's writer does.  The format gives those bytes no meaning, so the reader
+has to report the same declaration whatever they hold (`Spec/MdlFill.lean`: `encDeclF d f`; the one
+constraint is the format's own: the marker slot is decoded as an element, so its type and usage
+bytes are enum discriminants). -/
+
+/-- A declaration block is read back exactly, and the reader stops at the 136-byte boundary,
+whatever the padding bytes, the marker slot's other fields and the slots behind the marker hold. -/
+theorem c06_decl_fill_roundtrip (d : List VertexElement) (h : declOk d = true) (f : DeclFill)
+    (hf : declFillOk d f = true) (rest : Bytes) :
+    parseDecl (encDeclF d f ++ rest) = .ok (d, rest) :=
+  parseDecl_encF d h f hf rest
+
+/-- `encDeclF` generalises `encDecl`: the zero filler is admissible and gives the same block, so
+`c06_decl_block_roundtrip` is the instance `f = DeclFill.zero d` -/
+theorem c06_decl_fill_generalises (d : List VertexElement) :
+    declFillOk d (DeclFill.zero d) = true ∧ encDeclF d (DeclFill.zero d) = encDecl d :=
+  ⟨declFillOk_zero d, encDeclF_zero d⟩
+
+/-- non-vacuity: a two-element declaration with 0xFF / invalid enum bytes in every unused place
+(padding 0xFF, marker slot offset 9 / type 17 / usage 7 / index 0xFF, tail bytes 0xFF, 0x12, 0x08 …) -/
+example : declOk [⟨0, 0, 2, 0, 0⟩, ⟨1, 0, 14, 4, 0⟩] = true ∧
+    declFillOk [⟨0, 0, 2, 0, 0⟩, ⟨1, 0, 14, 4, 0⟩]
+      { pads := [(0xFF, 0xFF, 0xFF), (1, 2, 3)], mkOffset := 9, mkType := 17, mkUsage := 7, mkIndex := 0xFF,
+        mkPad := (0xFF, 0, 0xFF), tail := (List.replicate 37 [0xFF, 0x12, 0x08]).flatten ++ [0xFF] } = true := by
+  decide
+
+/-- The whole runtime block is read back field by field whatever the unused bytes of its
+declaration blocks hold — versions ≤ 5 and ≥ 6. -/
+theorem c06_grammar_fill_roundtrip (fh : FileHeader) (d : ModelData) (h : modelDataOk fh d = true)
+    (fs : List DeclFill) (hfs : declFillsOk d.decls fs = true) (rest : Bytes) :
+    parseModelData fh (encModelDataF fh.version d fs ++ rest) = .ok (d, rest) :=
+  parseModelData_encF fh d h fs hfs rest
+
+/-- On a whole file with filled declaration blocks the reader's two header parses return the same
+layout as on the zero-filled file, and leave the same geometry sections.  (The geometry stage reads
+the file at absolute offsets behind the runtime block, which `encodeMdlF` does not change; that
+`fromExisting (encodeMdlF m fs)` reports `view m` is checked by correspondence — family `declfill`
+— with the executable model evaluated on the filled file, not proved.) -/
+theorem c06_headers_of_fill (m : AbstractModel) (h : WF m = true) (fs : List DeclFill)
+    (hfs : declFillsOk (modelData m).decls fs = true) :
+    parseFileHeader (encodeMdlF m fs) =
+        .ok (fileHeader m, encModelDataF m.version (modelData m) fs ++ sections m) ∧
+    parseModelData (fileHeader m) (encModelDataF m.version (modelData m) fs ++ sections m) =
+        .ok (modelData m, sections m) ∧
+    (encodeMdlF m fs).length = (encodeMdl m).length :=
+  ⟨parseFileHeader_enc _ _, parseModelData_encF _ _ (wf_modelDataOk m h) fs hfs _, length_encodeMdlF m h fs hfs⟩
 
 /-- Bone and material names are exactly the stored names (each byte pushed as a `char`), taken
 from the string table at the offsets in the name tables. -/
